@@ -420,7 +420,8 @@ func (s *Session) cleanUp(expired bool) {
 		s.sessionStoreLock.Unlock()
 	}
 
-	s.background = false
+	// Do not clear s.background here: the topics read it when they process the leave request to decide
+	// whether this session was counted as online. A session which is still in the background never was.
 	s.bkgTimer.Stop()
 	s.unsubAll()
 	// Stop the write loop.
